@@ -7,6 +7,7 @@
 #include <sys/socket.h>
 #include <unistd.h>
 
+#include <algorithm>
 #include <cstring>
 
 #include "sim.h"
@@ -480,7 +481,7 @@ void exec_step(const J &st, int incb) {
         fr += (char)(p.bytes.size() & 255);
         fr += p.bytes;
         s.instream += fr;
-        ev("{\"e\":\"env\",\"op\":\"stream\",\"fd\":%d,\"pid\":%d,\"len\":%zu,%s}", on, p.pid, fr.size(), p.desc.c_str());
+        ev("{\"e\":\"env\",\"op\":\"stream\",\"fd\":%d,\"pid\":%d,\"slen\":%zu,%s}", on, p.pid, fr.size(), p.desc.c_str());
       } else {
         s.inq.push_back(p);
       }
@@ -513,8 +514,17 @@ void exec_step(const J &st, int incb) {
     return;
   } else if (op == "setservers") {
     std::string csv = st["csv"].str();
-    ev("{\"e\":\"call\",\"api\":\"setservers\",\"csv\":%s,\"n\":%lld,\"now\":%lld,\"depth\":%d,\"incb\":%d}", jstr(csv).c_str(),
-       st["n"].num(0), g_now_ms, g_depth, incb);
+    std::string lst;  // server numbers N of the 10.0.0.N / [fd00::N] entries, in order
+    for (size_t p = 0; p < csv.size();) {
+      size_t a = csv.find("10.0.0.", p), b = csv.find("fd00::", p);
+      size_t x = std::min(a, b);
+      if (x == std::string::npos) break;
+      int n = (x == a) ? atoi(csv.c_str() + x + 7) : (int)strtol(csv.c_str() + x + 6, nullptr, 16);
+      lst += (lst.empty() ? "" : ",") + std::to_string(n);
+      p = x + 6;
+    }
+    ev("{\"e\":\"call\",\"api\":\"setservers\",\"csv\":%s,\"list\":[%s],\"now\":%lld,\"depth\":%d,\"incb\":%d}", jstr(csv).c_str(),
+       lst.c_str(), g_now_ms, g_depth, incb);
     g_depth++;
     int rc = ares_set_servers_csv(g_channel, csv.c_str());
     g_depth--;
